@@ -202,8 +202,109 @@ def r4(ctx):
         raise AnalysisBroken('C19.R4: quote state machine of splitFields not recognised (%d sites)' % n)
 
 
+def r5(ctx):
+    ctx.rule('C19.R5', 'every entry point of the field definition dump (the DataField::dump overrides, which Message::dumpField '
+             'calls while the stream is still in hex mode from the ID columns) sets the decimal number base before any '
+             'number of the definition (length, divisor, value list keys, ranges) is written by itself or by a function it '
+             'hands the stream to (summary-based: a callee "needs decimal from its caller" if it can insert an integer, or '
+             'call such a function, before setting the base itself)', minimum=3, star=True)
+    fb = ctx.fb
+    import rules.C12 as c12
+    from facts import Explorer
+    entries = [f for f in fb.functions if f.blocks and f.name.endswith('::dump') and f.cls and
+               (f.cls == 'ebusd::DataField' or f.cls in fb.derived('ebusd::DataField')) and
+               any('ostream' in p.get('t', '') for p in f.params)]
+    if len(entries) < 3:
+        raise AnalysisBroken('C19.R5: only %d DataField::dump overrides found' % len(entries))
+    names = fb.reachable_from([f.name for f in entries])
+    cand = {}
+    for f in fb.functions:
+        if f.name in names and f.blocks and '/lib/ebus/' in f.file and any('ostream' in p.get('t', '') for p in f.params):
+            cand.setdefault(f.name, []).append(f)
+    need = {}      # function name -> witness (description) if it needs the decimal base from its caller
+    estab = set()  # functions that leave the stream in decimal mode on every path to their exit
+
+    def targets(fn, v):
+        cal = v.get('callee') or ''
+        out = {cal}
+        if v.get('virt') and not v.get('qualcall') and v.get('cls'):
+            m = cal.split('::')[-1]
+            for d in fb.derived(v['cls']):
+                out.add(d + '::' + m)
+        return out
+
+    def analyse(fn):
+        sp = [p for p in fn.params if 'ostream' in p.get('t', '')][0]['name']
+        found = {}
+
+        def on_elem(user, e, path):
+            v = fn.nodes[e]
+            k = v['k']
+            if k == 'CXXOperatorCallExpr' and v.get('op') == '<<' and len(v.get('args', [])) == 2:
+                root = c12.stream_root(fn, e)
+                if fn.key(root) in (sp, '*' + sp):
+                    if c12.sets_base(fn, v['args'][1]):
+                        dec = any(fn.nodes[x].get('qn') == 'std::dec' for x in fn.walk(v['args'][1]))
+                        return 'dec' if dec else 'other'
+                    if c12.is_int_insertion(fn, v) and user != 'dec':
+                        found.setdefault('insertion of %s at line %d' % (fn.key(v['args'][1])[:40], fn.line_of(e)), (e, path))
+                    return user
+            if k in ('CallExpr', 'CXXMemberCallExpr') and v.get('args') is not None:
+                if any(fn.key(a) in (sp, '*' + sp) for a in v['args']):
+                    ts = [t for t in targets(fn, v) if t in cand]
+                    for t in ts:
+                        if t in need and user != 'dec':
+                            found.setdefault('call of %s at line %d (%s)' % (t.split('::', 1)[-1], fn.line_of(e), need[t]), (e, path))
+                    if ts and all(t in estab for t in ts):
+                        return 'dec'
+            return user
+        exits = set()
+
+        def on_edge(user, b, j, dnf):
+            if fn.blocks[b].succs[j] == fn.exit:
+                exits.add(user)
+            return user
+        ex = Explorer(fn, on_elem=on_elem, on_edge=on_edge, correlate=True)
+        ex.run(fn.entry, 0, 'inherited')
+        return found, exits
+    # phase 1: which functions leave the stream in decimal mode (grows only, independent of `need`)
+    changed = True
+    rounds = 0
+    while changed and rounds < 8:
+        changed = False
+        rounds += 1
+        for name, fs in sorted(cand.items()):
+            if name in estab or len(fs) != 1:
+                continue
+            found, exits = analyse(fs[0])
+            if exits == {'dec'}:
+                estab.add(name)
+                changed = True
+    # phase 2: which functions need the decimal base from their caller (grows only, with the final `estab`)
+    changed = True
+    rounds = 0
+    while changed and rounds < 8:
+        changed = False
+        rounds += 1
+        for name, fs in sorted(cand.items()):
+            if name in need:
+                continue
+            for f in fs:
+                found, exits = analyse(f)
+                if found:
+                    need[name] = sorted(found)[0]
+                    changed = True
+    for f in sorted(entries, key=lambda f: f.name):
+        ctx.touch(f)
+        w = need.get(f.name)
+        ctx.ob('C19.R5', f, f.body, w is None, 'decimal base in %s' % f.name.split('::', 1)[-1],
+               'a number is written in the inherited number base: %s' % w if w else
+               'decimal base set before every number written by it or its callees (%d functions summarised)' % len(cand))
+
+
 def run(ctx):
     r1(ctx)
     r2(ctx)
     r3(ctx)
     r4(ctx)
+    r5(ctx)
